@@ -503,6 +503,16 @@ pub fn rw_option(r: &R, e: &Expr) -> Option<String> {
             let b = r.expr(&cl.body);
             Some(format!("(match {} {{ Some(qx_v) => Some(qx_v), None => {} }})", recv, b))
         }
+        "unwrap_or_else" if mc.args.len() == 1 && r.opts.has_rw("unwrap_or_else") => {
+            let cl = closure_of(&mc.args[0])?;
+            if !cl.inputs.is_empty() {
+                return None;
+            }
+            r.note("R3 Option::unwrap_or_else -> match");
+            let recv = r.expr(&mc.receiver);
+            let b = r.expr(&cl.body);
+            Some(format!("(match {} {{ Some(qx_v) => qx_v, None => {} }})", recv, b))
+        }
         "then_some" if mc.args.len() == 1 && r.opts.has_rw("opt_closure") => {
             r.note("R3 bool::then_some -> if/else");
             let recv = r.expr(&mc.receiver);
